@@ -10,32 +10,37 @@ pub fn constructor_order_qa(source_unit: SourceUnit) -> HashSet<Loc> {
     //Create a new hashset that stores the location of each qa target identified
     let mut qa_locations: HashSet<Loc> = HashSet::new();
 
-    //Extract the target nodes from the source_unit
-    let target_nodes =
-        ast::extract_target_from_node(Target::FunctionDefinition, source_unit.into());
+    //Extract the contract definitions from the source_unit
+    let contract_nodes =
+        ast::extract_target_from_node(Target::ContractDefinition, source_unit.into());
 
-    let mut fn_counter: usize = 0; // number of function definitions before reaching the constructor function
+    //A constructor is compared with the functions of its own contract only
+    for contract_node in contract_nodes {
+        let target_nodes =
+            ast::extract_target_from_node(Target::FunctionDefinition, contract_node);
 
-    //For each target node that was extracted, check for the qa patterns
-    for _node in target_nodes {
-        //a free function is a file-level item, not a contract part: it cannot precede a constructor
-        let contract_part = match _node.contract_part() {
-            Some(contract_part) => contract_part,
-            None => continue,
-        };
+        let mut fn_counter: usize = 0; // number of function definitions before reaching the constructor function
 
-        if let pt::ContractPart::FunctionDefinition(box_fn_definition) = contract_part {
-            match box_fn_definition.ty {
-                pt::FunctionTy::Constructor => {
-                    if fn_counter > 0 {
-                        qa_locations.insert(box_fn_definition.loc);
-                        break;
+        //For each target node that was extracted, check for the qa patterns
+        for _node in target_nodes {
+            //a free function is a file-level item, not a contract part: it cannot precede a constructor
+            let contract_part = match _node.contract_part() {
+                Some(contract_part) => contract_part,
+                None => continue,
+            };
+
+            if let pt::ContractPart::FunctionDefinition(box_fn_definition) = contract_part {
+                match box_fn_definition.ty {
+                    pt::FunctionTy::Constructor => {
+                        if fn_counter > 0 {
+                            qa_locations.insert(box_fn_definition.loc);
+                        }
                     }
-                }
-                // Modifiers must be placed before constructor
-                pt::FunctionTy::Modifier => continue,
-                _ => {
-                    fn_counter += 1;
+                    // Modifiers must be placed before constructor
+                    pt::FunctionTy::Modifier => continue,
+                    _ => {
+                        fn_counter += 1;
+                    }
                 }
             }
         }
